@@ -90,6 +90,7 @@ def _can_precede(f, a, b):
 
 def relevant_values(f, alias_of):
     rel = set(alias_of)
+    from_alloc = set(alias_of)
     for k in range(len(f.args)):
         rel.add('$%d' % k)
     changed = True
@@ -105,10 +106,16 @@ def relevant_values(f, alias_of):
             elif i.op in ('bitcast', 'zext', 'trunc', 'ptrtoint', 'inttoptr'):
                 add = isinstance(i.o[0], str) and i.o[0] in rel
             elif i.op == 'phi':
-                add = all((isinstance(o, str) and (o in rel or const_int(o) is not None or o in ('null', 'undef'))) for o in i.o) \
-                    or any(isinstance(o, str) and o in alias_of for o in i.o)     # "the new block or the one found" merged for the tail
+                add = all((isinstance(o, str) and (o in rel or const_int(o) is not None or o in ('null', 'undef'))) for o in i.o)
+                if not add and any(isinstance(o, str) and o in from_alloc for o in i.o):
+                    add = True                       # "the new block or the one found" merged for the tail
+                    from_alloc.add(i.ref)
+                elif add and any(isinstance(o, str) and o in from_alloc for o in i.o):
+                    from_alloc.add(i.ref)
             elif i.op == 'icmp':
                 add = any(isinstance(o, str) and o in rel for o in i.o)
+            elif i.op == 'select':
+                add = isinstance(i.o[0], str) and i.o[0] in rel      # err = (node != NULL) ? 0 : -1
             if add:
                 rel.add(i.ref)
                 changed = True
@@ -200,9 +207,9 @@ def check_failure_paths(m, f, acs, f2, f3, f5, f7):
             if code is not None and ins.o:
                 for r in execd:
                     if ps.knows(('eq', r, 'null')) is True:
-                        v = const_int(ps.lookup(_k(ins.o[0])))
+                        v = const_int(typestate.value_of(f, ps, ins.o[0]))
                         if v != code:
-                            bad3.add('returns %s instead of -1 on the path where the allocation at %s failed' % (ps.lookup(_k(ins.o[0])), f.get(r).loc()))
+                            bad3.add('returns %s instead of -1 on the path where the allocation at %s failed' % (typestate.value_of(f, ps, ins.o[0]), f.get(r).loc()))
         return (execd, gone)
 
     bad3 = set()
